@@ -75,6 +75,10 @@ def shape(rng, mode):
     if mode == 'collinear_first':
         s = G.dy(rng.uniform(0.5, 20))
         return [(0.0, 0.0), (1.0 * s, 0.0), (2.0 * s, 0.0), (2.0 * s, 2.0 * s), (0.0, 2.0 * s)]
+    if mode == 'collinear_quad':
+        # a triangle with an extra vertex in the middle of one side: a 4-vertex loop whose first three vertices may be collinear
+        s = G.dy(rng.uniform(0.5, 20)); t = G.dy(rng.uniform(-1.0, 3.0))
+        return [(0.0, 0.0), (1.0 * s, 0.0), (2.0 * s, 0.0), (t * s, 2.0 * s)]
     return G.star_polygon(rng, n=rng.choice([3, 4, 5, 6, 9, 15]), R=rng.choice([2.0, 20.0, 200.0]), center=(0.0, 0.0))
 
 
@@ -90,11 +94,11 @@ def near_z_frame(rng):
 
 
 def fam_ctor(ctx, rng):
-    mode = rng.choice(['star', 'star', 'star', 'concave_first', 'collinear_first'])
+    mode = rng.choice(['star', 'star', 'star', 'concave_first', 'collinear_first', 'collinear_quad', 'collinear_quad'])
     b = shape(rng, mode)
     nh = rng.choice([0, 0, 0, 1, 2, 3]) if mode == 'star' else 0
     hs = G.holes_in(rng, b, nh) if nh else []
-    k = rng.randrange(len(b)) if mode == 'star' else 0
+    k = rng.randrange(len(b)) if mode in ('star', 'collinear_quad') else (0 if rng.random() < 0.6 else rng.randrange(len(b)))
     b = b[k:] + b[:k]
     rev = rng.random() < 0.5
     if rev:
